@@ -1,4 +1,5 @@
 import locale
+import re
 from xml.sax.saxutils import quoteattr
 
 from mwlib.parser.templ import evaluate, magic_time, nodes
@@ -85,11 +86,18 @@ class RelativeToAbsolute(nodes.Node):
         res.append(_rel2abs(arg, arg2))
 
 
+TAG_NAME_RX = re.compile(r"[A-Za-z][A-Za-z0-9_-]*\Z")
+
+
 class Tag(nodes.Node):
     def flatten(self, expander, variables, res):
         name = []
         evaluate.flatten(self[0], expander, variables, name)
         name = "".join(name).strip()
+        if not TAG_NAME_RX.match(name):
+            # (the name is written twice, so {{#tag:{{#tag:...}}}} doubled the output with every level)
+            res.append(f'<strong class="error">#tag: not a tag name: {name[:40]}</strong>')
+            return
         parameters = ""
 
         for parm in self[2:]:
